@@ -11,6 +11,7 @@ TRUSTED_COMMON = [
 LINES_PER_OP = {
     "DbDriver": lambda op: 1 if op.get("op") in ("snap", "states") else 2,
     "SchedDriver": lambda op: 1,
+    "LoopDriver": lambda op: 1,
     "KvsmDriver": lambda op: 1,
     "FsDriver": lambda op: 1,
     "AgentDriver": lambda op: 1,
@@ -53,7 +54,19 @@ def schedstream(profile, nq, nt, modes, length=120):
 
 RULE_SCHED = "real scheduler (launch() / Drummer.maintainShards() through the verif hook, scripted random source, Go map orders read back and handed to the model) on contexts answered by the real DB; profiles: launch = definitions of 1..6 shards x 1..5 members, the full matrix of region specifications (absent, shorter, longer, over/under-subscribed, duplicate, unknown, count 2^63), fleets of 0..8 hosts with regions and liveness; repair = views built member by member (healthy / failed after silence / failed never seen / waiting; host live or not; log record or not; surplus or missing members), 1..4 shards of <=5 members on 4..7 hosts; general = random command sequences; evaluations = scheduling calls, non-trivial = calls that produced requests"
 
+def loopstream(nq, nt, faults=60):
+    return {"cmd": "loopsim", "driver": "LoopDriver", "sections": None, "eval_re": r"^case:", "timeout": 3000,
+            "args": {"quick": ["-n", str(nq), "-faults", str(faults)], "thorough": ["-n", str(nt), "-faults", str(faults * 2)]}}
+
+RULE_LOOP = "closed loop: the real Drummer DB and the real scheduler against a simulated fleet (Go transliteration of the fleet half of the Lean loop model, compared with the Lean step after every event): fleets of size+1..7 NodeHosts, 1..6 shards of size 3 or 5; launch, then 5..64 (quick) faulty rounds (per host and round: crash for 1..3 rounds 4%, crash for 6..30 rounds 3%, report lost 10%, reply lost 10%, requests not executed 20%, replicas lagging / catching up), then all hosts up and fault-free round-fair rounds (4 ticks, every host reports / executes / catches up in random order, one scheduling round); oracles: healed within 12 rounds and stays healed (C01), request stream dry within 8 more rounds (C11), membership size and co-location after every round (C02), every scheduling decision by the scheduler oracles (C02, C11, C12); evaluations = events; non-trivial = sequences"
+
 CHECKS = {
+    "C01": {
+        "lean": ["DrummerVerif.Props.C01"],
+        "streams": [loopstream(25, 600)],
+        "rule": RULE_LOOP,
+        "assumptions": DB_ASSUME + ["the fleet half of the loop model (how NodeHosts execute requests: dragonboat's ordered config change, start / join / restore rules, data kept across restarts, a removed replica that learns of its removal stops) is an assumption, exercised against real NodeHosts by the agent harness (C18)"],
+    },
     "C20": {
         "lean": ["DrummerVerif.Props.C20"],
         "streams": [{"cmd": "kvcodec", "driver": "CodecDriver", "sections": None, "eval_re": r"^case:",
@@ -126,13 +139,13 @@ CHECKS = {
     },
     "C12": {
         "lean": ["DrummerVerif.Props.C12"],
-        "streams": [schedstream("repair", 400, 6000, ["maintain"]), schedstream("general", 100, 1500, ["maintain"])],
-        "rule": RULE_SCHED, "assumptions": DB_ASSUME,
+        "streams": [schedstream("repair", 400, 6000, ["maintain"]), schedstream("general", 100, 1500, ["maintain"]), loopstream(10, 300)],
+        "rule": RULE_SCHED + " | " + RULE_LOOP, "assumptions": DB_ASSUME,
     },
     "C02": {
         "lean": ["DrummerVerif.Props.C02"],
-        "streams": [schedstream("repair", 400, 6000, ["maintain"]), schedstream("general", 100, 1500, ["maintain"])],
-        "rule": RULE_SCHED, "assumptions": DB_ASSUME + ["fleet half of the loop model (dragonboat's ordered config change, start/restart rules) is an assumption validated by the agent harness"],
+        "streams": [schedstream("repair", 400, 6000, ["maintain"]), schedstream("general", 100, 1500, ["maintain"]), loopstream(12, 300)],
+        "rule": RULE_SCHED + " | " + RULE_LOOP, "assumptions": DB_ASSUME + ["fleet half of the loop model (dragonboat's ordered config change, start/restart rules) is an assumption validated by the agent harness"],
     },
     "C13": {
         "lean": ["DrummerVerif.Props.C13"],
@@ -167,7 +180,7 @@ CHECKS = {
     "C11": {
         "lean": ["DrummerVerif.Props.C11"],
         "streams": [dbstream("c11", 250, 4000, ["res", "img", "kill"]), dbstream("general", 150, 2000, ["res", "img", "kill"]),
-                    schedstream("general", 150, 2000, ["maintain"])],
+                    schedstream("general", 150, 2000, ["maintain"]), loopstream(12, 300)],
         "rule": RULE_DB % "c11 (every second report of a non-member host carries a stray replica) and general",
         "assumptions": DB_ASSUME,
     },
